@@ -178,3 +178,54 @@ Proof.
   destruct (follow h1 r1 p) as [a|], (follow h2 r2 p) as [b|]; try contradiction; auto.
   destruct (Hb _ _ H) as [o1 [o2 [E1 [E2 [Hc [Hs _]]]]]]. rewrite E1, E2. congruence.
 Qed.
+
+(* --- bisimulation up to a transformation of (class, scalars): used only inside proofs, to pass through the DAO level,
+       where classes are DAO / mapping classes and scalars are what user code (create_instance) made of them.  The
+       composition of the two directions must be the identity on the objects of the heap; then [bisim] is recovered. --- *)
+Definition obj_rel_g (F : Z -> list Z -> Z * list Z) (R : addr -> addr -> Prop) (o1 o2 : obj) : Prop :=
+  (ocls o2, oscal o2) = F (ocls o1) (oscal o1) /\ Forall2 (fld_rel R) (oflds o1) (oflds o2).
+Definition bisim_g (F : Z -> list Z -> Z * list Z) (R : addr -> addr -> Prop) (h1 h2 : heap) : Prop :=
+  forall a b, R a b -> exists o1 o2, h1 a = Some o1 /\ h2 b = Some o2 /\ obj_rel_g F R o1 o2.
+
+Lemma bisim_g_comp F G (R1 R2 : addr -> addr -> Prop) h1 h2 h3 :
+  bisim_g F R1 h1 h2 -> bisim_g G R2 h2 h3 ->
+  bisim_g (fun c s => G (fst (F c s)) (snd (F c s))) (fun a c => exists b, R1 a b /\ R2 b c) h1 h3.
+Proof.
+  intros H1 H2 a c [b [Hab Hbc]].
+  destruct (H1 _ _ Hab) as [o1 [o2 [E1 [E2 [Hc Hf]]]]].
+  destruct (H2 _ _ Hbc) as [o2' [o3 [E2' [E3 [Hc' Hf']]]]].
+  rewrite E2 in E2'. inversion E2'; subst o2'.
+  exists o1, o3. split; auto. split; auto. split.
+  - rewrite <- Hc. simpl. exact Hc'.
+  - pose proof (Forall2_comp _ _ _ _ _ Hf Hf') as H. eapply Forall2_impl; [|exact H].
+    intros f1 f3 [f2 [[T1 K1] [T2 K2]]]. split; [congruence|]. eapply Forall2_comp; eauto.
+Qed.
+
+Lemma bisim_g_id F (R : addr -> addr -> Prop) h1 h2 :
+  bisim_g F R h1 h2 -> (forall a b o, R a b -> h1 a = Some o -> F (ocls o) (oscal o) = (ocls o, oscal o)) ->
+  bisim R h1 h2.
+Proof.
+  intros H Hid a b Hab. destruct (H _ _ Hab) as [o1 [o2 [E1 [E2 [Hc Hf]]]]].
+  exists o1, o2. split; auto. split; auto. rewrite (Hid _ _ _ Hab E1) in Hc. inversion Hc.
+  repeat split; auto.
+Qed.
+
+Lemma bisim_g_agree F (R : addr -> addr -> Prop) h1 h2 h2' :
+  bisim_g F R h1 h2 -> (forall a b, R a b -> h2' b = h2 b) -> bisim_g F R h1 h2'.
+Proof.
+  intros Hb Hag a b Hab. destruct (Hb _ _ Hab) as [o1 [o2 [E1 [E2 Ho]]]].
+  exists o1, o2. split; auto. split; auto. rewrite (Hag _ _ Hab). exact E2.
+Qed.
+
+Lemma bisim_g_reach F (R : addr -> addr -> Prop) h1 h2 r1 r2 : R r1 r2 -> bisim_g F R h1 h2 ->
+  forall a, reach h1 r1 a -> exists b, R a b /\ reach h2 r2 b.
+Proof.
+  intros Hr Hb a Ha. induction Ha as [|a o t l b Ha IH Ho Hf Hk].
+  - exists r2. split; auto. constructor.
+  - destruct IH as [a' [Raa' Hra']].
+    destruct (Hb _ _ Raa') as [o1 [o2 [E1 [E2 [_ Hfl]]]]].
+    rewrite Ho in E1. inversion E1; subst o1.
+    destruct (Forall2_In_l _ _ _ _ Hfl Hf) as [[t' l'] [Hf' [Ht Hkk]]]. simpl in *.
+    destruct (Forall2_In_l _ _ _ _ Hkk Hk) as [b' [Hb' Rbb']].
+    exists b'. split; auto. eapply reach_step; eauto.
+Qed.
